@@ -64,6 +64,14 @@ def gen_store_case(seed):
             if not c07.has_ref(e):
                 e = ('mul', e, ('ref', 'second'))
             op = ['add', s, name, e]
+        foreign = [(o, n) for o in range(nstores) if o != s and reg_of[o] == reg_of[s] for n in defined[o] if n not in known[s]]
+        if op[0] == 'add' and foreign and rng.random() < 0.15:
+            # a definition that mentions a unit of ANOTHER store (sharing the registry) by its registry name, as str(unit)
+            # prints it: unknown here, so it must be refused and change nothing
+            o, n = rng.choice(foreign)
+            qname = rng.choice(['qa', 'qb', 'qc'])
+            if qname not in known[s]:
+                ops.append(['add', s, qname, ('div', ('qref', o, n), ('ref', 'second'))])
         ops.append(op)
         if name not in known[s]:
             known[s].append(name)
@@ -94,6 +102,9 @@ def store_oracle(case, impl):
         k = op[0]
         if k in ('add', 'base', 'new'):
             last_edit = op
+            if k == 'add' and r[0] == 'ok' and 'qref' in repr(op[3]):
+                bad.append(('store %d accepted a definition of %r that mentions a unit of another store by its registry name '
+                            '(%s): names of one store must be unknown in the other' % (op[1], op[2], r[1:2] or ''), {'edit': op}))
             if k == 'base' and r[0] == 'ok':
                 based.add((op[1], op[2]))
             if k == 'base':
@@ -148,7 +159,7 @@ def cross_format(case):
                 stores.append(UnitStore(None if op[1] < 0 else stores[op[1]]))
                 defined.append([])
             elif op[0] == 'add':
-                stores[op[1]].add_unit(op[2], c07.uexpr_str(op[3]))
+                stores[op[1]].add_unit(op[2], c07.uexpr_str(op[3], stores))
                 defined[op[1]].append(op[2])
             elif op[0] == 'base':
                 stores[op[1]].add_base_unit(op[2])
